@@ -233,6 +233,9 @@ class TmplGen:
     def dyn_child(self, n):
         """a direct child element of a dynamic-slot component: often aimed at the named slot `s1`, often reading slot values"""
         r = self.rng
+        if n[0] in ("elem", "text") and r.chance(1, 6):
+            # <block slot="…"> around ordinary content
+            return ("block", [n, ("elem", "v", [], [])] if n[0] == "text" else [n], r.choice(["s1", "s1", "", "zz"]))
         if n[0] != "elem":
             return n
         attrs = list(n[2])
@@ -265,7 +268,7 @@ class TmplGen:
             tag = r.choice(["view", "text", "cmp-x", "v", "cmp-y", "cmp-dyn" if self.dyn else "cmp-x"])
             kids = self.children(inner, depth - 1, in_sub)
             if tag == "cmp-dyn":
-                kids = [self.dyn_child(k) for k in kids]
+                kids = [self.dyn_child(k) for k in dyn_sanitize(kids)]
             return ("elem", tag, refs + self.attrs(inner), kids)
         if c == 6:
             return ("block", self.children(scope_names, depth - 1, in_sub))
@@ -328,6 +331,32 @@ class TmplGen:
         subs = {k: v for k, v in self.subs.items() if v is not None}
         return {"path": path, "nodes": nodes, "subs": subs, "modules": list(self.modules), "slot_values": self.slot_values,
                 "src_modules": list(self.src_modules)}
+
+
+def dyn_sanitize(nodes):
+    """content of a dynamic-slot component, as far as it is matched against slot names (through <block>, wx:if, wx:for carriers): only
+    text, elements, blocks, conditionals, loops and <slot> (template-is / include there are not part of the reference)"""
+    out = []
+    for n in nodes:
+        k = n[0]
+        if k in ("text", "elem", "slot"):
+            nd = n
+        elif k == "block":
+            nd = ("block", dyn_sanitize(n[1])) + tuple(n[2:])
+        elif k == "for":
+            nd = n[:5] + (dyn_carrier(n[5]),)
+        elif k == "if":
+            nd = ("if", [(c, dyn_carrier(car)) for c, car in n[1]], None if n[2] is None else dyn_carrier(n[2]))
+        else:
+            continue
+        if nd[0] == "text" and out and out[-1][0] == "text":
+            continue
+        out.append(nd)
+    return out
+
+
+def dyn_carrier(c):
+    return ("block", dyn_sanitize(c[1])) if c[0] == "block" else c
 
 
 def group_request(t, src):
@@ -437,8 +466,8 @@ class Printer:
         if k == "elem":
             return self.open_close(n[1], [self.attr(*a) for a in n[2]], self.nodes(n[3]))
         if k == "block":
-            # a plain <block> only contributes its children
-            return self.open_close("block", [], self.nodes(n[1]))
+            # a plain <block> only contributes its children (with a static slot name it aims them at a slot of the enclosing component)
+            return self.open_close("block", [' slot="%s"' % n[2]] if len(n) > 2 else [], self.nodes(n[1]))
         if k == "for":
             _, lst, item, index, key, car = n
             tag, at, inner = self.carrier_parts(car)
@@ -556,7 +585,51 @@ class RefJs:
         for n in ns:
             self.node(n, out, scopes, D)
 
-    def elem(self, n, out, scopes, D):
+    def dyn_nodes(self, ns, out, scopes, D, j, sname, real_v=True):
+        """`real_v`: do `slot:` references at this level read the slot values of the instance (the children function of the component and, through
+        its closure, the item functions of wx:for) or the parameter of a nested children function (wx:if branch, <block>), which nobody supplies"""
+        js = eg.js_str
+        for n in ns:
+            k = n[0]
+            if k == "text":
+                if sname == "":
+                    self.node(n, out, scopes, D)
+            elif k == "elem":
+                slot = [a for a in n[2] if a[0] == "slot"]
+                want = "''" if not slot else f"TOSTR({self.val(slot[0][2], scopes, D)})"
+                self.emit(f"if({want}==={js(sname)}){{")
+                # slot values reach the DIRECT content only; the element is not given a slot attribute (it is tied to the slot instance)
+                self.elem(n, out, scopes, D, slot_values=(lambda nm: js("SV%d:%s" % (j, camel(nm)))) if real_v else None, no_slot_attr=True)
+                self.emit("}")
+            elif k == "block" and len(n) > 2:
+                # <block slot="name">: all of its content goes to that slot (and is rendered as ordinary content)
+                if n[2] == sname:
+                    self.nodes(n[1], out, scopes, D)
+            elif k == "block":
+                self.dyn_nodes(n[1], out, scopes, D, j, sname, False)
+            elif k == "for":
+                _, lst, item, index, key, car = n
+                iv, xv = self.fresh("$it"), self.fresh("$ix")
+                self.emit(f"FOR({self.val(lst, scopes, D)},function({iv},{xv}){{")
+                self.dyn_nodes([car] if car[0] != "block" else car[1], out, scopes + [(item or "item", iv), (index or "index", xv)], D, j, sname, real_v)
+                self.emit("});")
+            elif k == "if":
+                first = True
+                for cond, car in n[1]:
+                    self.emit(("if(" if first else "else if(") + self.val(cond, scopes, D) + "){")
+                    self.dyn_nodes([car] if car[0] != "block" else car[1], out, scopes, D, j, sname, False)
+                    self.emit("}")
+                    first = False
+                if n[2] is not None:
+                    self.emit("else{")
+                    self.dyn_nodes([n[2]] if n[2][0] != "block" else n[2][1], out, scopes, D, j, sname, False)
+                    self.emit("}")
+            elif k == "slot":
+                self.node(n, out, scopes, D)     # a <slot> in the content is created for every slot instance
+            else:
+                raise ValueError("dyn content: " + k)
+
+    def elem(self, n, out, scopes, D, slot_values=None, no_slot_attr=False):
         _, tag, attrs, children = n
         e = self.fresh("e")
         self.emit(f"var {e}={{tag:{eg.js_str(tag)},calls:[]}};")
@@ -564,18 +637,23 @@ class RefJs:
         for fam, name, v in attrs:
             if fam == "slot:":
                 # the slot value is looked up by the camel-cased name; the scope variable is the alias, else the name as written
-                scopes = scopes + [(v[1] if v is not None else name, eg.js_str("SV:" + camel(name)))]
-        self.attr_calls(e, attrs, scopes, D, on_slot=False)
+                scopes = scopes + [(v[1] if v is not None else name, slot_values(name) if slot_values else eg.js_str("SV:" + camel(name)))]
+        self.attr_calls(e, attrs, scopes, D, on_slot=False, no_slot_attr=no_slot_attr)
         ch = self.fresh("c")
         self.emit(f"var {ch}=[];")
-        self.nodes(children, ch, scopes, D)
+        if tag == "cmp-dyn":
+            # a component with dynamic slots: its content is rendered once per slot instance, each time keeping only what aims at that slot
+            for j, sname in enumerate(COMPONENT_DEFS["cmp-dyn"]["slots"]):
+                self.dyn_nodes(children, ch, scopes, D, j, sname)
+        else:
+            self.nodes(children, ch, scopes, D)
         self.emit(f"if({ch}.length){e}.children={ch};")
         self.emit(f"{out}.push({e});")
 
-    def attr_calls(self, e, attrs, scopes, D, on_slot):
+    def attr_calls(self, e, attrs, scopes, D, on_slot, no_slot_attr=False):
         js = eg.js_str
         for fam, name, v in attrs:
-            if fam == "slot:":
+            if fam == "slot:" or (fam == "slot" and no_slot_attr):
                 continue
             val = self.val(v, scopes, D)
             if fam == "plain":
